@@ -192,11 +192,23 @@ class Task(NamedUIDObject):
                 # the resource leaves the task after it has joined it
                 self.append_z3_assertion(resource_busy_start <= resource_busy_end)
             else:
-                if early_out > 0:
+                # the busy interval of a task that is not scheduled stays at the point
+                # in the past of the task: it is not shifted
+                if early_out > 0 and self.optional:
+                    self.append_z3_assertion(
+                        resource_busy_end
+                        == z3.If(self._scheduled, self._end - early_out, self._end)
+                    )
+                elif early_out > 0:
                     self.append_z3_assertion(resource_busy_end == self._end - early_out)
                 else:
                     self.append_z3_assertion(resource_busy_end == self._end)
-                if delay_in > 0:
+                if delay_in > 0 and self.optional:
+                    self.append_z3_assertion(
+                        resource_busy_start
+                        == z3.If(self._scheduled, self._start + delay_in, self._start)
+                    )
+                elif delay_in > 0:
                     self.append_z3_assertion(
                         resource_busy_start == self._start + delay_in
                     )
